@@ -40,7 +40,12 @@ func checkC04(w *World, r *Report) {
 // ---- C04.1 ------------------------------------------------------------------------------------------------
 
 func checkC04Publication(w *World, r *Report, p *Proto, commit *ssa.Function) {
-	ru := r.Rule("C04.1", "one publication point: the tree pointer is stored only by the constructor (on the Router it just allocated) and by Txn.Commit, there exactly once, dominated by txn.write and txn.rootTxn != nil; no Swap/CompareAndSwap, no plain access", 2)
+	checkC04PublicationAs(w, r, p, commit, "C04.1")
+}
+
+// checkC04PublicationAs is rule C04.1 (repeated as C07.3: an aborted transaction publishes nothing).
+func checkC04PublicationAs(w *World, r *Report, p *Proto, commit *ssa.Function, id string) {
+	ru := r.Rule(id, "one publication point: the tree pointer is stored only by the constructor (on the Router it just allocated) and by Txn.Commit, there exactly once, dominated by txn.write and txn.rootTxn != nil; no Swap/CompareAndSwap, no plain access", 2)
 	nCommit := 0
 	for _, s := range p.sites(p.Tree) {
 		pos := w.Pos(s.call.Pos())
@@ -381,7 +386,12 @@ func allocHolds(a *ssa.Alloc, v ssa.Value) bool {
 // ---- C04.4 ------------------------------------------------------------------------------------------------
 
 func checkC04CommitOnSuccess(w *World, r *Report, p *Proto) {
-	ru := r.Rule("C04.4", "commit only on success: in every Router function that opens a transaction and calls Commit, the Commit call is control-dependent on the nil-error outcome of the operation performed on that transaction", 6)
+	checkC04CommitOnSuccessAs(w, r, p, "C04.4")
+}
+
+// checkC04CommitOnSuccessAs is rule C04.4 (repeated as C02.5).
+func checkC04CommitOnSuccessAs(w *World, r *Report, p *Proto, id string) {
+	ru := r.Rule(id, "commit only on success: in every Router function that opens a transaction and calls Commit, the Commit call is control-dependent on the nil-error outcome of the operation performed on that transaction", 6)
 	for _, fn := range w.FoxFuncs() {
 		opens := false
 		eachInstr(fn, func(in ssa.Instruction) {
